@@ -125,6 +125,9 @@ def evaluate(case: Dict[str, Any]) -> Outcome:
             return out
         t = report_model.translator(lang)
         path = os.path.join(outdir, "fifo_tax_report_jp.ods")
+        if not os.path.exists(path):
+            out.fail("jp_report_not_written", f"rp2_jp exited 0 but {os.path.basename(path)} is not in the output directory ({result.files})")
+            return out
         sheets = files.read_ods(path)
         names = list(sheets)
         # ---- expected sheets
